@@ -165,6 +165,7 @@ func (g *dialGate) releaseAll() {
 
 type crDialOutcome struct {
 	Returned   bool
+	NeverReturned bool // the call was still running 12 s after every gate had been opened
 	RetErr     string
 	OpenAtPeer int
 	RetOpen    bool // the returned connection is among the open ones
@@ -174,6 +175,83 @@ type crDialOutcome struct {
 	Trouble    string
 	Dur        time.Duration
 	DialErrs   []string
+}
+
+// runDialBehaviourDup: every direct candidate is unreachable and listed twice; optionally a reachable relay candidate
+// follows. Ungated; the call gets 12 s.
+func runDialBehaviourDup(K int, ips []string, withRelay bool) crDialOutcome {
+	var out crDialOutcome
+	udp, err := net.ListenUDP("udp", &net.UDPAddr{Port: 0})
+	if err != nil {
+		out.Trouble = err.Error()
+		return out
+	}
+	defer udp.Close()
+	ln, err := quictransport.ListenWithConfig(context.Background(), udp, authQuiet, quictransport.DefaultServerQUICConfig())
+	if err != nil {
+		out.Trouble = err.Error()
+		return out
+	}
+	defer ln.Close()
+	actx, acancel := context.WithCancel(context.Background())
+	defer acancel()
+	go func() {
+		for {
+			if _, err := ln.Accept(actx); err != nil {
+				return
+			}
+		}
+	}()
+	dead, _ := net.ListenUDP("udp", &net.UDPAddr{IP: net.IPv4(127, 0, 0, 1)})
+	deadPort := dead.LocalAddr().(*net.UDPAddr).Port
+	dead.Close()
+	var list []string
+	for k := 0; k < 2; k++ {
+		a := net.JoinHostPort("127.0.0.1", fmt.Sprint(deadPort+k))
+		list = append(list, a)
+	}
+	list = append(list, list...)
+	if withRelay {
+		list = append(list, "turn:"+net.JoinHostPort(ips[0], fmt.Sprint(udp.LocalAddr().(*net.UDPAddr).Port)))
+	}
+	prober, err := ice.NewProber(ice.ProberConfig{StunServers: []string{"127.0.0.1:9"}}, authQuiet)
+	if err != nil {
+		out.Trouble = "prober: " + err.Error()
+		return out
+	}
+	defer prober.Close()
+	theDialGate.reset()
+	theDialGate.releaseAll()
+	pctx, pcancel := context.WithTimeout(context.Background(), 12*time.Second)
+	defer pcancel()
+	type ret struct {
+		c   *quic.Conn
+		err error
+	}
+	retCh := make(chan ret, 1)
+	var mu sync.Mutex
+	go func() {
+		c, err := prober.ProbeAndDial(pctx, list, quictransport.ClientConfig(), quictransport.DefaultClientQUICConfig(), func(u ice.ProbeUpdate) {
+			if u.Err != nil {
+				mu.Lock()
+				out.DialErrs = append(out.DialErrs, u.Addr+": "+u.Err.Error())
+				mu.Unlock()
+			}
+		})
+		retCh <- ret{c, err}
+	}()
+	select {
+	case r := <-retCh:
+		if r.err != nil {
+			out.RetErr = r.err.Error()
+		} else {
+			out.Returned = true
+			r.c.CloseWithError(0, "")
+		}
+	case <-time.After(20 * time.Second):
+		out.NeverReturned = true
+	}
+	return out
 }
 
 // runDialBehaviour drives one behaviour. listStyle: 0 plain, 1 duplicates, 2 one reachable candidate relay-prefixed.
@@ -345,6 +423,7 @@ func runDialBehaviour(path []*graph.Edge, K int, reach map[int]bool, ips []strin
 	g.releaseAll()
 	if !waitRet(12 * time.Second) {
 		out.Trouble = "ProbeAndDial did not return"
+		out.NeverReturned = true
 		return out
 	}
 	out.Dur = time.Since(t0)
@@ -505,6 +584,26 @@ func ConnRaceDial(args []string) {
 		}
 		outcomes[fmt.Sprintf("reach=%d returned=%v open=%d won=%d", len(reach), o.Returned, o.OpenAtPeer, o.Won)]++
 		res.AddSample(replay, 6)
+	}
+	// every candidate fails and the list announces them twice (a host without NAT lists its public address after its
+	// interface addresses): the call must come back - with "all probes failed", or with the relay candidate
+	if *shard == 0 {
+		for _, withRelay := range []bool{false, true} {
+			reach := map[int]bool{}
+			style := 1
+			o := runDialBehaviourDup(*kk, ips, withRelay)
+			res.Behaviours++
+			replay := map[string]any{"candidates": "every direct candidate unreachable and listed twice", "relay_candidate_reachable": withRelay, "returned": o.Returned, "ret_err": o.RetErr, "dial_errors": o.DialErrs, "trouble": o.Trouble}
+			_ = reach
+			_ = style
+			switch {
+			case o.NeverReturned:
+				res.AddViolation(map[string]any{"kind": "dialer_never_returns", "side": "dialer", "relay_candidate_reachable": withRelay}, replay)
+			case withRelay && !o.Returned && o.Trouble == "":
+				res.AddViolation(map[string]any{"kind": "no_connection_although_reachable", "side": "dialer", "via": "relay candidate behind duplicated direct ones"}, replay)
+			}
+			outcomes[fmt.Sprintf("all direct fail, listed twice, relay=%v: returned=%v never=%v", withRelay, o.Returned, o.NeverReturned)]++
+		}
 	}
 	// free-running dials (no gates): all candidates reachable, the Go scheduler and the loopback
 	// timing decide; the census is the same
